@@ -4,7 +4,7 @@
    choice, cancellation of the caller's context at any point). *)
 From Coq Require Import List Arith Bool.
 From Oras Require Import Model.CopyImpl Proofs.CopyImplBase Proofs.CopyImplInv Proofs.CopyImplInv2 Proofs.CopyImplLive
-  Proofs.CopyImplDeadlock.
+  Proofs.CopyImplDeadlock Proofs.CopyImplFault Proofs.CopyImplTerm.
 Import ListNotations.
 
 Theorem C04_permits_conserved : forall succ K ext roots s, Reachable succ K ext roots s ->
@@ -46,3 +46,39 @@ Theorem C02_no_deadlock : forall succ K ext roots,
   exists l s', progress_label l = true /\ step succ s l = Some s' /\ In l (enabled succ s).
 Proof. exact no_deadlock. Qed.
 Print Assumptions C02_no_deadlock.
+
+(* Termination.  Nodes are 0 .. N-1, the roots are nodes.  `measure` (Proofs/CopyImplTerm.v: remaining
+   program-counter steps of every task + remaining dispatch work of every frame + the cost of committing
+   every still untracked node + 1 for the pending cancellation) strictly decreases on EVERY step,
+   fault and cancellation choices included; hence every execution has at most
+     bound = (#roots * (1 + spawn cost) + 2) + sum_{n<N} (7 + |succ n| + 4 |succ n| + 2) + 1
+   steps: a bound that depends only on the graph (not even on K), and no infinite execution exists. *)
+Theorem C02_terminates_measure : forall succ K ext roots N,
+  (forall n m, In m (succ n) -> m < n) -> (forall r, In r roots -> r < N) ->
+  forall s l s', Reachable succ K ext roots s -> step succ s l = Some s' -> measure succ N s' < measure succ N s.
+Proof. exact terminates_step. Qed.
+Print Assumptions C02_terminates_measure.
+
+Theorem C02_terminates : forall succ K ext roots N,
+  (forall n m, In m (succ n) -> m < n) -> (forall r, In r roots -> r < N) ->
+  forall ls s, run succ (init K ext roots) ls = Some s -> length ls <= bound succ ext roots N.
+Proof. exact terminates. Qed.
+Print Assumptions C02_terminates.
+
+Theorem C02_no_infinite_run : forall succ K ext roots N,
+  (forall n m, In m (succ n) -> m < n) -> (forall r, In r roots -> r < N) ->
+  forall (st : nat -> state) (lb : nat -> label),
+  st 0 = init K ext roots -> (forall i, step succ (st i) (lb i) = Some (st (S i))) -> False.
+Proof. exact no_infinite_run. Qed.
+Print Assumptions C02_no_infinite_run.
+
+(* Faults surface.  If in an execution from the initial state some storage step / callback of a task
+   fails (LExists _ ExFail, LFind _ false, LPush _ false) or the caller's context is cancelled
+   (LCancelTop, only enabled before the top-level call has returned), then the top-level syncutil.Go, once
+   it has returned, has returned an error - never success. *)
+Theorem C02_fault_surfaces_protocol : forall succ K ext roots,
+  (forall n m, In m (succ n) -> m < n) ->
+  forall ls s, run succ (init K ext roots) ls = Some s ->
+  existsb is_fault ls = true -> is_final s = true -> result s = Some true.
+Proof. exact fault_surfaces. Qed.
+Print Assumptions C02_fault_surfaces_protocol.
